@@ -113,9 +113,10 @@ type env struct {
 	invites map[*aclgen.InviteInfo]*inviteTrack
 	invList []*inviteTrack
 	fresh   [][]list.AclList // [account][0 full, 1 client]
+	oldKeyBlobs []blob
 	classes map[string]bool
 	// statistics
-	nViews, nPos, nNeg, nAttack, nAttackOpen, nRawRot, nWrites, nTreeIter, nSkipped, nForged int
+	nViews, nPos, nNeg, nAttack, nAttackOpen, nRawRot, nWrites, nTreeIter, nSkipped, nForged, nInviteHolder int
 	removedChecked                                                                           bool
 	hadLeaveRequest, authored                                                                []bool
 	// tree
@@ -315,11 +316,29 @@ func (e *env) rawRecordCheck(r int, data *aclrecordproto.AclData) error {
 		for _, k := range rk.InviteKeys {
 			gotInv = append(gotInv, hex.EncodeToString(k.Identity))
 		}
+		// an open invite created by a LATER content of the same record (batch: removal + new
+		// invite) does not exist yet when the rotation is applied; the invite content itself
+		// must hand it the key
+		createdLater := map[string]bool{}
+		after = false
+		for _, c := range data.AclContent {
+			if c.GetReadKeyChange() == rk || (c.GetAccountRemove() != nil && c.GetAccountRemove().ReadKeyChange == rk) {
+				after = true
+				continue
+			}
+			if inv := c.GetInvite(); after && inv != nil {
+				createdLater[hex.EncodeToString(inv.InviteKey)] = true
+			}
+		}
 		for _, inv := range w.Invites {
 			if inv.Live && inv.Anyone {
 				b, err := inv.Key.GetPublic().Marshall()
 				if err != nil {
 					return err
+				}
+				if createdLater[hex.EncodeToString(b)] {
+					e.classes["rotation-and-new-open-invite-in-one-record"] = true
+					continue
 				}
 				expInv = append(expInv, hex.EncodeToString(b))
 			}
@@ -566,6 +585,37 @@ func (e *env) attacks(r int, blobs []blob) error {
 			return err
 		}
 	}
+	// the chain old-key-under-new-key of every rotation so far
+	for _, b := range blobs {
+		if strings.HasSuffix(b.label, ".encryptedOldReadKey") {
+			e.oldKeyBlobs = append(e.oldKeyBlobs, b)
+		}
+	}
+	// live open invites: the statement counts a revoked invite among the parties that "hold
+	// none", so a LIVE open invite holds one — its key holder derives, from the raw log and the
+	// invite private key alone, the current read key and every earlier one (that is what makes
+	// a join through it possible)
+	for _, it := range e.invList {
+		if !it.inv.Anyone || !it.inv.Live {
+			continue
+		}
+		if it.att == nil {
+			it.att = &attacker{name: fmt.Sprintf("the holder of the open invite key created by record %d", it.created), priv: it.inv.Key, syms: map[string]crypto.SymKey{}}
+		}
+		if err := e.attack(it.att, r, blobs, nil); err != nil {
+			return err
+		}
+		if err := e.attack(&attacker{name: it.att.name, syms: it.att.syms}, r, e.oldKeyBlobs, nil); err != nil {
+			return err
+		}
+		for gi, g := range e.gens {
+			if _, ok := it.att.syms[hex.EncodeToString(e.truth[g.id])]; !ok {
+				return fmt.Errorf("after record %d (%s): the live open invite created by record %d does not give its holder the read key of generation %d/%d (introduced by record %d): no ciphertext addressed to the invite key opens to it, nobody can join through the invite", r, e.opText(), it.created, gi+1, len(e.gens), g.rec)
+			}
+		}
+		e.nInviteHolder++
+		e.classes["live-open-invite-holder-derives-all-generations"] = true
+	}
 	// revoked open invites: the holder of the invite key
 	for _, it := range e.invList {
 		if !it.inv.Anyone {
@@ -576,17 +626,20 @@ func (e *env) attacks(r int, blobs []blob) error {
 		}
 		if it.revokedAt < 0 {
 			it.revokedAt = r
-			it.att = &attacker{name: fmt.Sprintf("the holder of the open invite key revoked by record %d", r), priv: it.inv.Key, syms: map[string]crypto.SymKey{}}
-			// what it legitimately knows: everything derivable from the records while it was live
-			for q := it.created; q < r; q++ {
-				root, data, err := decodeRecord(w.Records[q], q == 0)
-				if err != nil {
-					return err
-				}
-				if err := e.attack(it.att, q, blobsOf(root, data), nil); err != nil {
-					return err
+			if it.att == nil { // created and revoked without ever being seen live
+				it.att = &attacker{priv: it.inv.Key, syms: map[string]crypto.SymKey{}}
+				for q := it.created; q < r; q++ {
+					root, data, err := decodeRecord(w.Records[q], q == 0)
+					if err != nil {
+						return err
+					}
+					if err := e.attack(it.att, q, blobsOf(root, data), nil); err != nil {
+						return err
+					}
 				}
 			}
+			// what it legitimately knows: everything it derived from the records while it was live
+			it.att.name = fmt.Sprintf("the holder of the open invite key revoked by record %d", r)
 			if len(it.att.syms) == 0 {
 				return fmt.Errorf("HARNESS: the holder of a live open invite key (created by record %d) could not derive any read key before its revocation at record %d", it.created, r)
 			}
@@ -705,6 +758,9 @@ func (e *env) classify(r int) {
 				for _, it := range e.invList {
 					if it.inv.Anyone && it.inv.Live && it.created < e.gens[len(e.gens)-1].rec {
 						e.classes["open-invite-join-after-rotation"] = true
+					}
+					if it.inv.Anyone && it.inv.Live && it.created > 0 && w.M.GenAt[it.created] > w.M.GenAt[it.created-1] {
+						e.classes["join-through-invite-created-by-removal-batch"] = true
 					}
 				}
 			case "accept":
